@@ -610,6 +610,124 @@ def _on_grid(label: Frac, S, TF) -> bool:
 # gap filling
 
 
+def _check_fill_semantic(prop: str, res: Result, repo: Repo, fm) -> bool:
+    """decide the fill rules from one symbolic iteration of the in-place scan (fillsem.py); False: shape not understood (the
+    syntactic recogniser below gets its turn and, failing that, the answer is 'cannot decide')"""
+    from .fillsem import LEN, TF, Unknown, analyse_inplace
+    from .absint import c_not as _not
+
+    rule = "R-FILL"
+    try:
+        an = analyse_inplace(repo, fm)
+        ins = [(p, e) for p in an["paths"] for e in p["inserts"]]
+        if not ins:
+            raise Unknown("no path inserts a candle")
+        poss = {repr(e[3][0].f) for _, e in ins if e[3] and isinstance(e[3][0], Num)}
+        if len(poss) != 1 or any(len(e[3]) != 2 for _, e in ins):
+            raise Unknown("inserts at several positions / unusual insert call")
+        P = next(e[3][0].f for _, e in ins)
+        syms = an["syms"]
+        if not any(a in P.atoms() for a in syms.values()):
+            raise Unknown("the insert position does not depend on a cursor")
+    except Unknown as e:
+        res.note(f"fill scan not decided semantically ({e}); trying the syntactic recogniser")
+        return False
+    prev_o, next_o = f"L[{(P - ONE)!r}]", f"L[{P!r}]"
+    ts_prev, ts_next = A("attr", prev_o, "timestamp"), A("attr", next_o, "timestamp")
+    raw_prev = A("raw", prev_o, "close")
+    gap_ne = mk_cmp("!=", ts_next, ts_prev + TF)
+    gap_gt = mk_cmp("<", ts_prev + TF, ts_next)
+    order = ["open", "high", "low", "close", "volume", "timestamp"]
+    findings_before = len(res.findings)
+
+    def pos_after(path):
+        mp = {}
+        for k, a in syms.items():
+            v = path["cursor"].get(k)
+            if not isinstance(v, Num):
+                raise Unknown(f"cursor {k} is not a number after the iteration")
+            mp[a] = v.f
+        return poly.subst(P, mp)
+
+    try:
+        loop = an["loop"]
+        for path in an["paths"]:
+            facts = an["test_facts"] + path["facts"]
+            if path["others"]:
+                res.fail(rule, finding(prop, rule, fm, path["others"][0][-1], "the fill scan changes the list by something other than inserting the fill candle"))
+            if path["heap"]:
+                res.fail("R-EFFECT", finding(prop, "R-EFFECT", fm, loop, "the fill scan stores into an existing candle / the manager"))
+            if path["inserts"]:
+                if len(path["inserts"]) != 1:
+                    raise Unknown("several inserts on one path")
+                val = path["inserts"][0][3][1]
+                node = path["inserts"][0][-1]
+                if not (isinstance(val, Obj) and val.kind == "new" and val.data[0] == "Candle"):
+                    raise Unknown("the inserted value is not a Candle(...) built in the scan")
+                fields = dict(zip(order, val.data[1]))
+                fields.update(dict(val.data[2]))
+                want = {"open": raw_prev, "high": raw_prev, "low": raw_prev, "close": raw_prev, "volume": ZERO, "timestamp": ts_prev + TF}
+                for k, w in want.items():
+                    got = fields.get(k)
+                    if isinstance(got, Num) and (got.f == w or got.f.same(w)):
+                        res.ok(rule, {"site": fm.where, "fill candle": f"{k} = {got.f!r}"}, nontrivial=f"fill:{k}")
+                    elif k in ("open", "high", "low", "close") and isinstance(got, Num) and got.f == A("attr", prev_o, "close"):
+                        res.fail(rule, finding(prop, rule, fm, node, f"the inserted candle takes {k} from the previous candle's .close, which is the converted (e.g. Heikin-Ashi) close when the list is re-collapsed after an append and the raw close in a batch pass: with a candlestick type and timeframe_fill the fill candles depend on the append schedule; use the raw close (clean_values.get('close', .close))", construct=f"fill candle {k}=previous.close"))
+                    else:
+                        res.fail(rule, finding(prop, rule, fm, node, f"the inserted candle must have {k} = {w!r} (flat at the previous candle's raw close, zero volume, one timeframe after the previous candle); found {got!r}", construct=f"fill candle {k}={got!r}"[:150]))
+                if gap_ne in facts or gap_gt in facts:
+                    res.ok(rule, {"site": fm.where, "gap test": "list[p].timestamp != list[p-1].timestamp + timeframe" if gap_ne in facts else "list[p-1].timestamp + timeframe < list[p].timestamp"}, nontrivial="fill:gap")
+                else:
+                    res.fail(rule, finding(prop, rule, fm, node, "a candle is inserted on a path that has not established `next.timestamp != previous.timestamp + timeframe` on the full timestamps (e.g. a comparison of .seconds drops whole days); path: " + "; ".join(show_cond(c) for c in facts if c is not True)[:200], construct="fill: gap test"))
+                if ("present-ts", prev_o) not in facts and not any(isinstance(c, tuple) and c[0] == "not" and c[1] == ("isnone", ts_prev) for c in facts):
+                    res.note("fill: the insert path does not test the previous timestamp for presence")
+            else:
+                # a path that decides 'no gap' must have seen the equality (or a missing previous timestamp)
+                pass
+            if path["kind"] == "next":
+                d = pos_after(path) - P
+                if d == ONE or (d.is_const() and d.const_value() == 1):
+                    res.ok(rule, {"site": fm.where, "cursor": "the examined position advances by one (an inserted candle becomes the next 'previous')"})
+                else:
+                    res.fail(rule, finding(prop, rule, fm, loop, f"after an iteration {'that inserted a candle ' if path['inserts'] else ''}the examined position moves by {d!r}, not by 1: {'the inserted candle is skipped as the next previous, so a gap of several buckets gets one fill candle only' if path['inserts'] else 'pairs are skipped / re-examined'}", construct=f"fill cursor step {d!r}"))
+        # first examined pair
+        first = poly.subst(P, {a: an["init"][k] for k, a in syms.items()})
+        if first.is_const() and first.const_value() == 1:
+            res.ok(rule, {"site": fm.where, "cursor": "first examined pair is (list[0], list[1])"}, nontrivial="fill:cursor")
+        else:
+            res.fail(rule, finding(prop, rule, fm, loop, f"the fill scan starts at position {first!r}, not at the first pair of the rebuilt list: gaps before it are never filled", construct=f"fill cursor init {first!r}"))
+        # continuation: exactly while p < len(list)
+        want_cont = mk_cmp("<", P, LEN)
+        always = isinstance(loop.test, ast.Constant) and loop.test.value is True
+        if not always:
+            tf_ = [c for c in an["test_facts"] if c is not True]
+            if tf_ == [want_cont]:
+                res.ok(rule, {"site": fm.where, "end": "pairs are examined while the position is < len(list), len taken afresh"})
+            else:
+                res.fail(rule, finding(prop, rule, fm, loop.test, f"the fill scan continues while [{'; '.join(show_cond(c) for c in tf_)}], not while the examined position is < len(list): the end of the list is not examined / over-run", construct="fill loop end"))
+        else:
+            brk = [p_ for p_ in an["paths"] if p_["kind"] == "break"]
+            nxt = [p_ for p_ in an["paths"] if p_["kind"] == "next"]
+            ok_b = bool(brk)
+            for p_ in brk:
+                pa = pos_after(p_)
+                if _not(mk_cmp("<", pa, LEN)) not in p_["facts"] and mk_cmp("<=", LEN, pa) not in p_["facts"]:
+                    ok_b = False
+            for p_ in nxt:
+                pa = pos_after(p_)
+                if mk_cmp("<", pa, LEN) not in p_["facts"]:
+                    ok_b = False
+            if ok_b:
+                res.ok(rule, {"site": fm.where, "end": "the scan stops exactly when the next position reaches len(list), len taken afresh"})
+            else:
+                res.fail(rule, finding(prop, rule, fm, loop, "the `while True` fill scan does not stop exactly when the next examined position reaches len(list)", construct="fill loop end"))
+    except Unknown as e:
+        del res.findings[findings_before:]
+        res.note(f"fill scan not decided semantically ({e}); trying the syntactic recogniser")
+        return False
+    return True
+
+
 def check_fill(prop: str, res: Result, repo: Repo):
     rule = "R-FILL"
     fm = repo.method("hexital.core.candle_manager", "CandleManager", "fill_missing_candles")
@@ -621,6 +739,13 @@ def check_fill(prop: str, res: Result, repo: Repo):
             if isinstance(r_, FuncInfo):
                 fm = r_
     fn = fm.node
+    if _check_fill_semantic(prop, res, repo, fm):
+        # effects: only insert; no store on existing candles, no state on self
+        for s_, t in attr_stores(fn):
+            res.fail("R-EFFECT", finding(prop, "R-EFFECT", fm, s_, "fill_missing_candles writes an attribute: filling must only insert fresh candles and keep no state"))
+        if not attr_stores(fn):
+            res.ok("R-EFFECT", {"site": fm.where, "effect": "inserts only"})
+        return
     params = [p for p in fm.params if p != "self"]
     lst, tfp = params[0], params[1]
     ctor = [c for c in calls_in(fn) if call_target(c) == "Candle"]
